@@ -119,6 +119,7 @@ type History struct {
 	Events []Event
 	seq    int
 	t0     int64
+	late   []ScriptedHook // scripted hooks still to be attached (op "late_hook")
 }
 
 func (h *History) bind(cl *mqtt.Client) {
@@ -200,9 +201,14 @@ func NewHistory(cfg Config) *History {
 	}
 	h.rec = &recHook{h: h}
 	_ = h.Srv.AddHook(h.rec, nil)
-	for _, s := range cfg.Scripted {
+	early := len(cfg.Scripted) - cfg.Late
+	if early < 0 {
+		early = 0
+	}
+	for _, s := range cfg.Scripted[:early] {
 		_ = h.Srv.AddHook(&scriptHook{s: s, r: h.rec}, nil)
 	}
+	h.late = append([]ScriptedHook{}, cfg.Scripted[early:]...)
 	switch cfg.Auth {
 	case "allow", "acl", "acl_only":
 		c := cfg
